@@ -16,6 +16,8 @@ a directive is copied through.  Directives:
   //@ before <n> `literal`    before the line holding the n-th occurrence
   //@ after <n> `literal`     after the statement holding the n-th occurrence
   //@ afterline <n> `literal` after the line holding the n-th occurrence
+  //@ loop-end <n>            at the end of the n-th loop's body
+  //@ finish                  before the closing brace of the fn body (fns returning ())
   //@ start                   right after the body's opening brace
   //@ rewrite `regex` => `replacement` ## reason
   //@ end
@@ -295,6 +297,23 @@ class Expander:
                     it.has_requires = True
             elif kind == "start":
                 inserts.append((body_open + 1, order, "\n" + btxt, "proof"))
+            elif kind == "finish":
+                # before the function body's closing brace (only for fns without a tail expression)
+                close = rustlex.match_close(tm, body_open)
+                off = text.rfind("\n", 0, close) + 1
+                inserts.append((off, order, btxt + "\n", "proof"))
+            elif kind == "loop-end":
+                k = int(args.split()[0])
+                loops = rustlex.find_loops(text, tm, body_open)
+                if k < 1 or k > len(loops):
+                    raise LostAnchor("%s: loop %d not found (%d loops)" % (it.id, k, len(loops)))
+                close = rustlex.match_close(tm, loops[k - 1][1])
+                off = text.rfind("\n", 0, close) + 1
+                if text[off:close].strip():
+                    off = close  # closing brace shares its line with code
+                    inserts.append((off, order, "\n" + btxt + "\n", "proof"))
+                else:
+                    inserts.append((off, order, btxt + "\n", "proof"))
             elif kind == "loop":
                 k = int(args.split()[0])
                 loops = rustlex.find_loops(text, tm, body_open)
